@@ -131,6 +131,40 @@ def gen_C20_ext(chk):
                       tag="slice-ext-colours", meta={"net": net, "netname": nm, "k": 2, "fs": fs2})
 
 
+def gen_C20_domains(chk):
+    """slices of batches that reuse colour-dependent domains under changing outer restrictions (the
+    answer for a colour must not depend on which other colours the graph admits)"""
+    import random as _random
+    from .props import domain_reuse_batch
+    rng = _random.Random("C20-domains-%s" % chk.seed)
+    nets = [(nm, gen.CURATED[nm]) for nm in gen.CURATED]
+    for i in range(cnt(chk, 4, 12)):
+        net = gen.random_network(rng, max_n=3, max_bits=6)
+        if net_props(net):
+            nets.append(("D%d" % i, net))
+    for nm, net in nets:
+        props = net_props(net)
+        if len(props) * 3 > 10:
+            continue
+        ctx = [("fp", "f" + gen.hx("!{x}: AX {x}")), ("att", "f" + gen.hx("!{x}: AG EF {x}")),
+               ("d", rng.choice(["k%d.1.2", "k%d.1.4", "r%d.1.4"]) % rng.randint(1, 10 ** 6)),
+               ("b", "f" + gen.hx(rng.choice(props)))]
+        fs = []
+        for _ in range(cnt(chk, 2, 4)):
+            for _t in range(10):
+                g = domain_reuse_batch(rng, props, labels=("fp", "d", "b", "att"))
+                if max(gen.quant_depth(f) for f in g) <= 2:
+                    break
+            else:
+                continue
+            fs += g
+        if not fs:
+            continue
+        add_shell(chk, "SLICE", ["2", "A:" + gen.hx(net), ",".join(gen.hx(gen.render(f)) for f in fs),
+                                 str(32 if thorough(chk) else 12), ",".join("%s=%s" % (gen.hx(l), sp) for l, sp in ctx)],
+                  tag="slice-domains", meta={"net": net, "netname": nm, "k": 2, "fs": fs})
+
+
 def judge_C20(chk):
     judge_shell(chk)
     judge_slices(chk)
@@ -507,5 +541,5 @@ REGISTRY = {
     "C16": runner([gen_C16, gen_C16_cli, gen_C16_big, gen_shell_tie_C16], lambda c: (judge_shell(c), judge_model_tie(c))),
     "C17": runner([gen_C17, gen_shell_tie_C17], lambda c: (judge_shell(c), judge_model_tie(c))),
     "C19": runner([gen_C19, gen_shell_tie_C19], lambda c: (judge_shell(c), judge_model_tie(c))),
-    "C20": runner([gen_C20, gen_C20_ext, gen_C20_big], judge_C20),
+    "C20": runner([gen_C20, gen_C20_ext, gen_C20_big, gen_C20_domains], judge_C20),
 }
